@@ -9,9 +9,9 @@
 #include <math.h>
 #include <xmmintrin.h>
 
-#define NPIPE 15
+#define NPIPE 16
 static const char *pipename[NPIPE]={"enc-vbr-mono","enc-vbr-stereo-hq","enc-managed","enc-5.1","enc-lowrate-multich","pkt-decode","vf-linear","vf-seek-script","vf-lapped-seeks","vf-halfrate",
-  "model-stream-decode","headers-and-comments","vf-streaming","enc-then-decode-chain","enc-tiny-streams"};
+  "model-stream-decode","headers-and-comments","vf-streaming","enc-then-decode-chain","enc-tiny-streams","enc-managed-silent-channels"};
 
 /* shared READ-ONLY inputs, built once before any thread starts */
 static buf_t g_chain, g_single; static pktlist_t g_pk, g_model;
@@ -77,6 +77,10 @@ static uint64_t pipeline(int kind,uint64_t seed){
   case 11: return do_headers(seed);
   case 12: return do_vf(&g_chain,seed,4);
   case 14: { static const long Ns[]={0,1,7,20,32,33,63,64,129}; uint64_t h=0; for(int k=0;k<9;k++){ uint64_t x=do_encode(seed+k,1+(k&1),k%3?44100:8000,0.3f,0,Ns[k],k%2?SIG_NOISE:SIG_DC); h=fnv1a(&x,8,h); } return h; }   /* streams shorter than one block */
+  case 15: { /* managed mode reads all candidate packets of a block; channels that are digitally silent over whole blocks (each in its own segments / one channel throughout /
+                everything until a burst) leave most per-candidate tables unassigned */
+    uint64_t h=0, x; x=do_encode(seed,2,44100,0.4f,1,16000,SIG_GATED); h=fnv1a(&x,8,h); x=do_encode(seed+1,2,32000,0.3f,1,12000,SIG_ONSET); h=fnv1a(&x,8,h);
+    x=do_encode(seed+2,3,48000,0.5f,1,9000,SIG_GATED); h=fnv1a(&x,8,h); return h; }
   default: { /* encode, mux, decode through vorbisfile */
     enccfg_t c; enccfg_default(&c); c.channels=2; c.rate=32000; c.quality=0.6f; c.sig=SIG_MULTI; c.sigseed=seed; c.nsamples=7000; encres_t er; if(enc_run(&c,&er)){ encres_free(&er); return 0x6666; }
     buf_t s; buf_init(&s); mux_stream(&er.pk,(int)seed,PAGE_FILL,900,seed,&s); uint64_t h=do_vf(&s,seed,0); buf_free(&s); encres_free(&er); return h; }
